@@ -36,6 +36,7 @@ import (
 
 	"github.com/zerx-lab/wordZero/pkg/document"
 	"github.com/zerx-lab/wordZero/pkg/markdown"
+	"github.com/zerx-lab/wordZero/pkg/style"
 )
 
 func init() {
@@ -238,6 +239,8 @@ type sioCtx struct {
 	work string
 	rnd  *rand.Rand
 	nsv  int
+	// path written by the last successful Save of x.doc to a regular file ("" = none)
+	lastPath string
 }
 
 func (x *sioCtx) edit(i int, op Op) string {
@@ -284,6 +287,35 @@ func (x *sioCtx) edit(i int, op Op) string {
 		d.AddListItem("item "+tok, nil)
 	case "margins":
 		return errRet(d.SetPageMargins(20, 21, 22, 23))
+	case "pad32k", "pad64k":
+		// boundary class of the byte-copying layers (32 KiB copy buffers / deflate window): the main part
+		// is padded to EXACTLY a multiple of 32768 bytes
+		unit := 32768
+		if op.Name() == "pad64k" {
+			unit = 65536
+		}
+		d.AddParagraph("pad " + tok + " ")
+		p := d.Body.GetParagraphs()
+		last := p[len(p)-1]
+		for try := 0; try < 4; try++ {
+			b, err := d.ToBytes()
+			if err != nil {
+				return "err"
+			}
+			cur := len(ReadPkg(b).Parts["word/document.xml"])
+			if cur%unit == 0 {
+				break
+			}
+			last.Runs[0].Text.Content += strings.Repeat("x", unit-cur%unit)
+		}
+	case "title":
+		// changes docProps only (no body change)
+		return errRet(d.SetTitle("title " + tok))
+	case "style":
+		// changes word/styles.xml only: a registered style is edited through the style manager
+		if st := d.GetStyleManager().GetStyle("Heading1"); st != nil {
+			st.Name = &style.StyleName{Val: "heading one " + tok}
+		}
 	case "mdpara":
 		x.md.WriteString("Paragraph " + tok + " with *emphasis* and `code`.\n\n")
 	case "mdheading":
@@ -324,6 +356,14 @@ func (x *sioCtx) target(class string) *sioTarget {
 	case "existing":
 		t.path = filepath.Join(base, "out.docx")
 		t.reset = func() { os.WriteFile(t.path, sioOld, 0o644) }
+	case "resave":
+		// the file of this document's previous successful Save, left exactly as that call left it
+		// (a fresh path if the document has not been saved yet)
+		t.path = filepath.Join(base, "a", "out.docx")
+		if x.lastPath != "" {
+			t.path = x.lastPath
+		}
+		t.reset = func() {}
 	case "device":
 		t.path = filepath.Join(base, "out.docx")
 		t.reset = func() { os.Remove(t.path); os.Symlink("/dev/full", t.path) }
@@ -626,9 +666,12 @@ func runSaveIO(c Case, emit Emitter, onlyPerm bool) {
 			continue
 		}
 		// unfaulted reference save of the same document through the same entry point: gives the layout
+		// (not for "resave": the call under test must be the first Save since the one that wrote the file)
 		ref := &sioRef{}
-		rt := x.target("newdir")
-		emit(x.call(via, rt, -1, ref, true))
+		if class != "resave" {
+			rt := x.target("newdir")
+			emit(x.call(via, rt, -1, ref, true))
+		}
 		t := x.target(class)
 		if t == nil {
 			emit(Ev{"ev": "skip", "case": c.ID, "target": class, "why": "unknown-target"})
@@ -643,6 +686,14 @@ func runSaveIO(c Case, emit Emitter, onlyPerm bool) {
 			}
 		}
 		// and without a limit (after the failed attempts, if any)
-		emit(x.call(via, t, -1, ref, false))
+		e := x.call(via, t, -1, ref, false)
+		emit(e)
+		if via == "Save" && (class == "newdir" || class == "existing" || class == "resave") {
+			if e["ret"] == "ok" {
+				x.lastPath = t.path
+			} else {
+				x.lastPath = ""
+			}
+		}
 	}
 }
